@@ -1,10 +1,10 @@
 CONSTANTS
   Totals <- Tsim
-  Classes <- ClsAll
+  Classes <- ClsSim
   Mode = "all"
   MaxLen = 40
 INIT Init
-NEXT Next
+NEXT NextSim
 VIEW View
 INVARIANTS TypeOK CountIsCard CompleteIffAll OnlyGoodStored ReassembledEqualsOriginal
 PROPERTIES StepShape
